@@ -340,6 +340,11 @@ class Gen:
             return v.output.dtype == 2 and not self._is_int(v)
         return v.output.dtype == "real"
 
+    def may_be_infinite(self, name):
+        """A Scatter by logaddexp / max / min fills the positions it does not write with the op's
+        unit, an infinity: negating or subtracting such values leads to inf - inf."""
+        return any(op["op"] == "scatter" and op["fn"] != "add" for op in prune(self.program, [name]))
+
     def may_be_zero(self, name):
         """Scatter fills the positions it does not write with exact zeros."""
         return any(op["op"] == "scatter" for op in prune(self.program, [name]))
@@ -431,6 +436,8 @@ class Gen:
             fn = r.choice(fam["binary"])
             if fn == "truediv" and self.may_be_zero(b):
                 fn = "mul"  # x/0 and 0/0 are arithmetic edges, not rewrite questions
+            if fn == "sub" and (self.may_be_infinite(a) or self.may_be_infinite(b)):
+                fn = "add"  # inf - inf is an arithmetic edge, not a rewrite question
             sa, sb = self.types[a].output.shape, self.types[b].output.shape
             if self.family_name in ("ring", "tropical") and len(sa) == 1 and sa == sb and r.random() < 0.3:
                 return self.emit({"op": "opeinsum", "equation": r.choice(["a,a->", "a,a->a", "a,b->ab" if False else "a,a->"]), "parts": [a, b]})
@@ -444,6 +451,8 @@ class Gen:
             if a is None:
                 return None
             fn = r.choice([f for f in ("add", "sub", "mul") if f in fam["binary"]] or ["add"])
+            if fn in ("sub", "mul") and self.may_be_infinite(a):
+                fn = "add"
             return self.emit({"op": "pyop", "fn": fn, "a": a, "const": self.data(fam["data"], 1)[0], "rev": r.random() < 0.5})
         if kind == "unary":
             a = self.pick(fv)
@@ -452,6 +461,8 @@ class Gen:
             fn = r.choice(fam["unary"])
             if fn == "reciprocal" and self.may_be_zero(a):
                 fn = "sqrt"
+            if fn in ("neg", "abs") and self.may_be_infinite(a):
+                fn = "tanh" if "tanh" in fam["unary"] else "exp"
             return self.emit({"op": "unary", "fn": fn, "a": a})
         if kind == "reduce":
             a = self.pick(lambda v: fv(v) and any(d.dtype != "real" for d in v.inputs.values()))
@@ -592,7 +603,8 @@ class Gen:
             dest = size + r.choice([0, 1, 2])
             index = r.sample(range(dest), size)  # injective
             self.fresh_names += 1
-            fn = {"ring": "add", "tropical": r.choice(["add", "max"]), "log": r.choice(["logaddexp", "add"])}[self.family_name]
+            # (tropical data is positive: a max-Scatter would fill with -inf and break the carrier)
+            fn = {"ring": "add", "tropical": "add", "log": r.choice(["logaddexp", "add"])}[self.family_name]
             return self.emit({"op": "scatter", "fn": fn, "a": a, "var": [n, size], "index": index, "dest_size": dest, "name": "d%d" % self.fresh_names})
         if kind == "getslice":
             a = self.pick(lambda v: len(v.output.shape) > 0 and v.output.shape[0] >= 2)
